@@ -1,5 +1,8 @@
 import RemocModel.Rtc.Live
 import RemocModel.Rtc.Example
+import RemocModel.Rtc.RfnLive
+import RemocModel.Rtc.RfnTerm
+import RemocModel.Rtc.RfnExample
 set_option linter.unusedSimpArgs false
 set_option linter.unusedVariables false
 
@@ -261,3 +264,257 @@ theorem f10_oversize_request_poisons_client :
   decide
 
 end Remoc.Rtc
+
+/-!
+# C19 for remote functions (`remoc::rfn::{RFn, RFnMut, RFnOnce}`)
+
+Theorems about M_rfn (`RemocModel/Rtc/Rfn.lean`) for every label list, all three flavours, local
+and transported wrappers.
+
+* `rfn_no_pending_at_quiescence` — **no call hangs**: in every reachable state in which no
+  internal step is possible, the provider side is finished with every request and every call
+  future that has not been dropped has an outcome, a value or an error — whatever happened before
+  (provider dropped with calls queued / executing, connection lost at any point, requests or
+  results that cannot be transmitted, callers dropped at any stage).  This is the clause the seeded
+  change C12-m2 broke: `try_call_int` must drop the request (and with it `result_tx`) when
+  `request_tx.send` fails; a model in which `sendFail` keeps the sending half alive does not
+  satisfy `DN.done`.
+* `rfn_error_has_cause`, `rfn_calls_complete`, `rfn_provider_stops_only_for_cause` — an error
+  outcome has one of the legitimate causes, a call without a cause returns a value, the provider
+  task ends only because the provider was dropped, the callers are gone / unreachable, or (`RFnOnce`)
+  the one request has been taken: abandoned calls, failed calls and undeliverable results never
+  stop it.
+* `rfn_cancel_at_next_await` — for the **documented** behaviour (`Cfg.cancel = true`): once the
+  result sender of a call observes `closed()` (caller dropped the future, connection lost) no
+  further segment of that call runs in any continuation, the `closed()` branch is enabled, and
+  after it the serial provider is back in its receive state.
+* **Finding F-RFN-1** (`rfn_f1_not_cancelled_pinned`, kernel-checked witness): the code as it is
+  (`Cfg.cancel = false`) does **not** race the function against `result_tx.closed()`: after the
+  caller has gone the remaining segments run, `RFnMut` stays busy with the abandoned call and a
+  later call waits behind it.  What does hold for the code as it is
+  (`rfn_cancel_at_next_await_partial`): dropping a call future touches nothing but that call's
+  own receiver, the abandoned execution keeps taking steps on its own until it ends, its result is
+  discarded, and at quiescence nothing is pending — the provider is not wedged *provided the
+  function itself makes progress*.
+
+Partial, spelled out: liveness is "judged at quiescence" and assumes that the function body makes
+progress on its own (`execStep` is an internal label); wake-ups and scheduler fairness are runtime
+facts checked by the harness's hang detector.
+-/
+
+namespace Remoc.Rfn
+
+variable {f : Fun}
+
+/-- **No call is left pending at quiescence.**  If no internal step is possible, the provider
+side is finished with every request, nothing is queued or executing, and no call future is still
+waiting: every call has returned a value or an error (or was dropped by its caller). -/
+theorem rfn_no_pending_at_quiescence (cfg : Cfg) (s : State f) (h : Reachable cfg s)
+    (hcap : 0 < cfg.cap) (hlim : 0 < cfg.limit) (hq : Quiescent cfg s) :
+    (∀ c, s.stage c = .done) ∧ s.queue = [] ∧ s.execs = []
+      ∧ (∀ c, s.loop ≠ .running c) ∧ ∀ c, s.cl c ≠ .waiting := by
+  have hi := inv_of_reachable cfg s h
+  have hdone := quiescent_all_done cfg s hi.wf hi.st hcap hlim hq
+  refine ⟨hdone, quiescent_queue_empty cfg s hi.wf hi.st hq, ?_, ?_,
+    quiescent_no_waiting cfg s hi.wf hi.st hi.dn hcap hlim hq⟩
+  · cases hex : s.execs with
+    | nil => rfl
+    | cons c t =>
+      have hm : c ∈ s.execs := by rw [hex]; simp
+      have := (hi.st.exec c).2 (Or.inr hm)
+      rw [hdone c] at this; cases this
+  · intro c hl
+    have := (hi.st.exec c).2 (Or.inl hl)
+    rw [hdone c] at this; cases this
+
+/-- **No livelock: quiescence is reached.**  From any reachable state the runtime can take at
+most `mu s` steps on its own (every list of consecutively enabled internal labels is at most that
+long): request hand-over, dequeue, permits, function segments, cancellation, result transmission,
+purge and the end of the provider task all consume a bounded budget that only the environment
+(new calls) refills.  Together with `rfn_no_pending_at_quiescence`: every call gets its outcome
+after finitely many steps. -/
+theorem rfn_internal_steps_terminate (cfg : Cfg) (s s' : State f) (h : Reachable cfg s) (ls : List Label)
+    (hint : ∀ l, l ∈ ls → l.internal = true) (hrun : execAll cfg s ls = some s') :
+    mu s' + ls.length ≤ mu s :=
+  internal_run_bounded cfg s s' (inv_of_reachable cfg s h) ls hint hrun
+
+/-- every error outcome has one of the legitimate causes -/
+theorem rfn_error_has_cause (cfg : Cfg) (s : State f) (h : Reachable cfg s) (c : Nat) (hlt : c < s.n)
+    (he : s.cl c = .error) : Cause cfg s c :=
+  (inv_of_reachable cfg s h).er.err c hlt he
+
+/-- **The provider task ends only for a cause**: the provider object was dropped, all callers are
+gone or unreachable (connection lost / sender failed), or the one request of an `RFnOnce` has been
+taken. -/
+theorem rfn_provider_stops_only_for_cause (cfg : Cfg) (s : State f) (h : Reachable cfg s) (w : Stop)
+    (hl : s.loop = .stopped w) : StopCause cfg s w :=
+  (inv_of_reachable cfg s h).sp.stop w hl
+
+/-- **Abandoned, failed or undeliverable calls never stop the provider**: as long as the provider
+object exists, a handle exists, the connection is up, the sender has not failed and (for `RFnOnce`)
+no request has been taken, the provider task is running. -/
+theorem rfn_provider_keeps_serving (cfg : Cfg) (s : State f) (h : Reachable cfg s)
+    (hp : s.provGone = false) (hc : s.callersGone = false)
+    (hr : cfg.remote = true → s.connUp = true ∧ s.poisoned = false)
+    (ho : cfg.fl = .once → deqOrder s.tr = []) : s.loop.isStopped = false := by
+  cases hl : s.loop with
+  | stopped w =>
+    exfalso
+    have hcause := rfn_provider_stops_only_for_cause cfg s h w hl
+    cases w with
+    | provDropped => simp [StopCause, hp] at hcause
+    | callersGone =>
+      simp only [StopCause, hc] at hcause
+      rcases hcause with h1 | ⟨h1, h2⟩
+      · cases h1
+      · have := hr h1
+        rcases h2 with h2 | h2
+        · rw [this.1] at h2; cases h2
+        · rw [this.2] at h2; cases h2
+    | onceTaken => exact hcause.2 (ho hcause.1)
+  | _ => rfl
+
+/-- **Calls without a cause of their own complete with a value.**  At quiescence every call whose
+caller is still there and which has none of the causes of `Cause` has returned a value — whatever
+abandoned calls or failures of *other* calls happened before or concurrently. -/
+theorem rfn_calls_complete (cfg : Cfg) (s : State f) (h : Reachable cfg s)
+    (hcap : 0 < cfg.cap) (hlim : 0 < cfg.limit) (hq : Quiescent cfg s) (c : Nat) (hlt : c < s.n)
+    (hno : ¬ Cause cfg s c) (hthere : s.cl c ≠ .abandoned) : ∃ r, s.cl c = .value r := by
+  have hnw := (rfn_no_pending_at_quiescence cfg s h hcap hlim hq).2.2.2.2 c
+  cases hcl : s.cl c with
+  | value r => exact ⟨r, rfl⟩
+  | waiting => exact absurd hcl hnw
+  | abandoned => exact absurd hcl hthere
+  | error => exact absurd (rfn_error_has_cause cfg s h c hlt hcl) hno
+
+/-! ### cancellation -/
+
+/-- **Cancelled at the next await** (documented behaviour, `cancel = true`).  Let `c` be an issued
+call whose result sender observes `closed()`.  Then in every continuation `ls` of the run no
+segment of `c` is executed any more (segment counts and program counter of `c` are frozen) and the
+sender keeps observing `closed()`. -/
+theorem rfn_cancel_at_next_await (cfg : Cfg) (hcan : cfg.cancel = true) (s : State f) (h : Reachable cfg s)
+    (c : Nat) (hlt : c < s.n) (hcl : s.closed c = true) (ls : List Label) :
+    (∀ k, segCount c k (run cfg s ls).tr = segCount c k s.tr)
+      ∧ (run cfg s ls).pc c = s.pc c ∧ (run cfg s ls).closed c = true := by
+  induction ls generalizing s with
+  | nil => exact ⟨fun _ => rfl, rfl, hcl⟩
+  | cons l ls ih =>
+    simp only [run]
+    split
+    · rename_i s' hs
+      have hw := (inv_of_reachable cfg s h).wf
+      have hfr := frozen_step cfg hcan s s' l hw hs c hlt hcl
+      have := ih s' (reachable_step cfg s s' l h hs) hfr.2.2.2 hfr.2.2.1
+      refine ⟨fun k => ?_, ?_, this.2.2⟩
+      · rw [this.1 k, hfr.1 k]
+      · rw [this.2.1, hfr.2.1]
+    · exact ih s h hlt hcl
+
+/-- the `closed()` branch of the biased select is what the function future takes: the segment step
+is disabled, the cancellation enabled, and after it the serial provider (`RFnMut`) is back in its
+receive state with the partial effect of the abandoned execution left in the captured state -/
+theorem rfn_cancel_enabled (cfg : Cfg) (hcan : cfg.cancel = true) (s : State f) (h : Reachable cfg s) (c : Nat)
+    (he : s.stage c = .executing) (hcl : s.closed c = true) :
+    step cfg s (.execStep c) = none
+      ∧ ∃ s', step cfg s (.execCancel c) = some s' ∧ s'.stage c = .done ∧ s'.σ = s.σ
+          ∧ (s.loop = .running c → cfg.fl = .mut → s'.loop = .idle) := by
+  have hw := (inv_of_reachable cfg s h).wf
+  have hlt : c < s.n := hw.lt_of_stage (by rw [he]; simp)
+  refine ⟨?_, ?_⟩
+  · simp only [step]
+    rw [if_neg]
+    intro hg
+    exact hg.2.2 ⟨hcan, hcl⟩
+  · simp only [step]
+    rw [if_pos ⟨hlt, he, hcan, hcl⟩]
+    refine ⟨_, rfl, by simp [endExec], by simp [endExec], ?_⟩
+    intro hl hfl
+    simp [endExec, hl, hfl]
+
+/-- **What holds for the code as it is** (`cancel = false`): dropping a call future changes
+nothing but that call's own record (the provider loop, the queue, every other call and the
+captured state are untouched), the abandoned execution can always take its next segment (it is
+never blocked by the departure of its caller), and — `rfn_no_pending_at_quiescence` — once it has
+run out nothing is left pending.  The full statement `rfn_cancel_at_next_await` does not hold for
+this variant: see the witness below. -/
+theorem rfn_cancel_at_next_await_partial (cfg : Cfg) (hcan : cfg.cancel = false) (s s' : State f) (c : Nat)
+    (h : step cfg s (.abandon c) = some s') :
+    s'.loop = s.loop ∧ s'.queue = s.queue ∧ s'.execs = s.execs ∧ s'.σ = s.σ ∧ s'.stage = s.stage
+      ∧ (∀ c', c' ≠ c → s'.cl c' = s.cl c')
+      ∧ (∀ c', c' < s'.n → s'.stage c' = .executing → step cfg s' (.execStep c') ≠ none) := by
+  rfn_step_inv h
+  refine ⟨rfl, rfl, rfl, rfl, rfl, fun c' hne => by simp [upd_apply, hne], ?_⟩
+  intro c' hlt he
+  simp only [step]
+  rw [if_pos ⟨hlt, he, by simp [hcan]⟩]
+  split <;> simp
+
+/-! ### non-vacuity and findings -/
+
+/-- the provider is dropped, then a call is made (the situation of seeded change C12-m2): the run
+ends in a quiescent state in which the call has returned an error -/
+example : Quiescent (cfgOf .mut false) (run (cfgOf .mut false) (init addFn) runProvDrop)
+    ∧ (run (cfgOf .mut false) (init addFn) runProvDrop).cl 0 = .error
+    ∧ (run (cfgOf .mut false) (init addFn) runProvDrop).loop = .stopped .provDropped :=
+  ⟨quiescent_of_check _ _ (by decide), by decide, by decide⟩
+
+/-- the internal part of that run (provider task ends, send fails, error delivered) is a strictly
+executed list of internal labels: three steps, the measure drops from 12 to 3 -/
+example : execAll (cfgOf .mut false) (run (cfgOf .mut false) (init addFn) [.dropProvider, .issue 5])
+      [.provTerm, .sendFail 0, .recvReply 0]
+      = some (run (cfgOf .mut false) (init addFn) [.dropProvider, .issue 5, .provTerm, .sendFail 0, .recvReply 0])
+    ∧ mu (run (cfgOf .mut false) (init addFn) [.dropProvider, .issue 5]) = 12
+    ∧ mu (run (cfgOf .mut false) (init addFn) [.dropProvider, .issue 5, .provTerm, .sendFail 0, .recvReply 0]) = 3 := by
+  refine ⟨rfl, by decide, by decide⟩
+
+/-- … and before the call future has been polled again the state is *not* quiescent: the error is
+on its way (`recvReply` is enabled) -/
+example : step (cfgOf .mut false) (run (cfgOf .mut false) (init addFn) (runProvDrop.take 4)) (.recvReply 0) ≠ none := by
+  decide
+
+/-- provider dropped while one request executes and one waits behind it: the executing one
+completes with its value, the queued one fails, nothing is pending -/
+example : Quiescent (cfgOf .mut false) (run (cfgOf .mut false) (init addFn) runProvDropBusy)
+    ∧ (run (cfgOf .mut false) (init addFn) runProvDropBusy).cl 0 = .value 10
+    ∧ (run (cfgOf .mut false) (init addFn) runProvDropBusy).cl 1 = .error :=
+  ⟨quiescent_of_check _ _ (by decide), by decide, by decide⟩
+
+/-- connection loss with one request executing and one on its way: both calls fail, the execution
+runs out, the provider's receiver ends -/
+example : Quiescent (cfgOf .mut false) (run (cfgOf .mut false) (init addFn) runConnLoss)
+    ∧ (run (cfgOf .mut false) (init addFn) runConnLoss).cl 0 = .error
+    ∧ (run (cfgOf .mut false) (init addFn) runConnLoss).cl 1 = .error
+    ∧ sumVal (run (cfgOf .mut false) (init addFn) runConnLoss) = 10
+    ∧ (run (cfgOf .mut false) (init addFn) runConnLoss).loop = .stopped .callersGone :=
+  ⟨quiescent_of_check _ _ (by decide), by decide, by decide, by decide, by decide⟩
+
+/-- an argument that cannot be serialised fails the sender for good (same mechanism as F10) -/
+example : Quiescent (cfgOf .const false) (run (cfgOf .const false) (init addFn) runPoison)
+    ∧ (run (cfgOf .const false) (init addFn) runPoison).cl 0 = .error
+    ∧ (run (cfgOf .const false) (init addFn) runPoison).cl 1 = .error
+    ∧ (run (cfgOf .const false) (init addFn) runPoison).poisoned = true :=
+  ⟨quiescent_of_check _ _ (by decide), by decide, by decide, by decide⟩
+
+/-- documented behaviour: the caller goes away between the two segments of `add 5`; the segment
+step is disabled, the cancellation enabled; after it the loop is idle and the partial effect (one
+segment) stays in the captured state (hypotheses of `rfn_cancel_at_next_await`, `rfn_cancel_enabled`) -/
+example : (run (cfgOf .mut true) (init addFn) runAbandon).closed 0 = true
+    ∧ (run (cfgOf .mut true) (init addFn) runAbandon).stage 0 = .executing
+    ∧ step (cfgOf .mut true) (run (cfgOf .mut true) (init addFn) runAbandon) (.execStep 0) = none
+    ∧ (run (cfgOf .mut true) (init addFn) (runAbandon ++ [.execCancel 0])).loop = .idle
+    ∧ sumVal (run (cfgOf .mut true) (init addFn) (runAbandon ++ [.execCancel 0])) = 5 := by
+  decide
+
+/-- **Finding F-RFN-1 (witness on the code as it is).**  Same labels without the race against
+`closed()`: the result sender observes `closed()`, yet the second segment runs (`execStep`), the
+cancellation is not available, and the effect of the whole call ends up in the captured state. -/
+theorem rfn_f1_not_cancelled_pinned :
+    (run (cfgOf .mut false) (init addFn) runAbandon).closed 0 = true
+    ∧ step (cfgOf .mut false) (run (cfgOf .mut false) (init addFn) runAbandon) (.execCancel 0) = none
+    ∧ segCount 0 1 (run (cfgOf .mut false) (init addFn) runAbandon).tr = 0
+    ∧ segCount 0 1 (run (cfgOf .mut false) (init addFn) (runAbandon ++ [.execStep 0])).tr = 1
+    ∧ sumVal (run (cfgOf .mut false) (init addFn) (runAbandon ++ [.execStep 0])) = 10 := by
+  decide
+
+end Remoc.Rfn
